@@ -2,7 +2,7 @@
    Model: model/Context.v get_call_target over the scope chain (compared with rattr on every generated call site
    through the FunctionAnalyser correspondence), model/Results.v resolve (which targets are expanded).
    Specification: spec/Scoping.v expected_inline judges rattr's end-to-end answer per call site. *)
-From RattrV Require Import Base Str ModNames Context CallSwaps FuncAn Results C08Proofs C08Member RootCtx RootCheck RootSpec RootProofs.
+From RattrV Require Import Base Str ModNames Context CallSwaps FuncAn Results C08Proofs C08Member RootCtx RootCheck RootSpec RootProofs C08Module.
 Open Scope string_scope.
 Open Scope list_scope.
 
@@ -116,3 +116,28 @@ Theorem C08_dotted_import_does_not_bind_the_package :
   exists sc, regs (fun _ => true) (fun _ => false) "m" false [TImport [mkAlias "p.x" None]] [] = ROk sc
              /\ scope_get sc "p" = None /\ scope_get sc "p.x" = Some (mkSym "p.x" (KImport "p.x")).
 Proof. exact dotted_import_does_not_bind_the_package. Qed.
+
+(* ---------- module level to call site (proofs/C08Module.v) ---------- *)
+(* a bare call n(...) in a function whose own scope does not hold n gets the symbol of the FIRST module-level statement
+   that offers n, provided n is no builtin / dunder name *)
+Theorem C08_module_level_definition_is_the_call_target :
+  forall locatable blacklisted base is_init mexists stmts init root params n s,
+    forallb plain_stmt stmts = true ->
+    regs locatable blacklisted base is_init stmts init = ROk root ->
+    scope_get init n = None ->
+    first_of (flat_map (binds base is_init) stmts) n = Some s ->
+    plain n -> scope_get params n = None ->
+    get_call_target mexists [params; root] n = Some s.
+Proof. exact module_level_definition_is_the_call_target. Qed.
+(* the root table is a dictionary: never two symbols of one name, whatever the module says *)
+Theorem C08_root_table_has_unique_names :
+  forall locatable blacklisted base is_init stmts sc sc',
+    NoDup (names sc) -> regs locatable blacklisted base is_init stmts sc = ROk sc' -> NoDup (names sc').
+Proof. exact root_table_has_unique_names. Qed.
+(* `del n` then `def n`: the definition is registered, whatever n was before *)
+Theorem C08_delete_then_define_registers_the_definition :
+  forall locatable blacklisted base is_init sc sc' n u,
+    NoDup (names sc) ->
+    regs locatable blacklisted base is_init [TDelete [n] u; TDef n] sc = ROk sc' -> scope_get sc' n = Some (mkSym n KFunc).
+Proof. exact delete_then_define_registers_the_definition. Qed.
+Print Assumptions C08_module_level_definition_is_the_call_target.
